@@ -13,7 +13,8 @@ MODULE = "PropC18"
 THEOREMS = ["C18_write_then_read", "C18_write_leaves_other_slots", "C18_write_touches_one_cell",
             "C18_growth_keeps_every_cell", "C18_push_pop_restores", "C18_frame_push_pop_restores",
             "C18_new_frame_leaves_lower_cells", "C18_go_memory_refines_activations", "C18_step_keeps_simulation",
-            "C18_go_memory_refines_activations_full", "C18_full_step_keeps_simulation"]
+            "C18_go_memory_refines_activations_full", "C18_full_step_keeps_simulation",
+            "C18_local_operand_is_the_variable", "C18_frame_survives_what_keeps_the_stack_below"]
 IMPORTS = ["Base", "Bytecode", "Value", "FloatText", "Compile", "VM", "Mem18", "CorrMem"]
 
 
